@@ -154,13 +154,15 @@ type Prelude struct {
 	ExtraDecl  map[string]string   // constructor/selector symbol -> module
 	Attach     map[string][]string // module -> axiom modules attached to it (left out of lemma queries)
 	Monotone   map[string]bool     // ghost counters that never decrease
+	Proved     map[string]bool     // axiom modules justified by lemmas
+	LemmaOnly  map[string]bool     // axiom modules only included in lemma queries
 	Grows      map[string]bool     // ghost sets that only grow
 	StrLits    map[string]string   // string literal value -> prelude constant
 	AppendSum  map[string][]string // element sort -> prefix-sum functions additive over append
 }
 
 func LoadPrelude(paths ...string) (*Prelude, error) {
-	p := &Prelude{Fns: map[string]*SpecFn{}, Ghosts: map[string]string{}, Consts: map[string]string{}, ModDeps: map[string][]string{}, AfterSorts: map[string]bool{}, ExtraDecl: map[string]string{}, Attach: map[string][]string{}, Monotone: map[string]bool{}, Grows: map[string]bool{}, StrLits: map[string]string{}, AppendSum: map[string][]string{}}
+	p := &Prelude{Fns: map[string]*SpecFn{}, Ghosts: map[string]string{}, Consts: map[string]string{}, ModDeps: map[string][]string{}, AfterSorts: map[string]bool{}, ExtraDecl: map[string]string{}, Attach: map[string][]string{}, Monotone: map[string]bool{}, Proved: map[string]bool{}, LemmaOnly: map[string]bool{}, Grows: map[string]bool{}, StrLits: map[string]string{}, AppendSum: map[string][]string{}}
 	for _, path := range paths {
 		data, err := os.ReadFile(path)
 		if err != nil {
@@ -222,6 +224,23 @@ func LoadPrelude(paths ...string) (*Prelude, error) {
 			if strings.HasPrefix(s, ";@monotone") {
 				for _, g := range strings.Fields(strings.TrimPrefix(s, ";@monotone")) {
 					p.Monotone[g] = true
+				}
+				continue
+			}
+			if strings.HasPrefix(s, ";@attach-lemmas") {
+				// axioms only needed by prelude-level lemmas (e.g. AC group laws,
+				// which flood function-level queries with instances)
+				for _, m := range strings.Fields(strings.TrimPrefix(s, ";@attach-lemmas")) {
+					p.Attach[m] = append(p.Attach[m], module)
+					p.LemmaOnly[module] = true
+				}
+				continue
+			}
+			if strings.HasPrefix(s, ";@attach-proved") {
+				// axioms justified by base/step lemmas: left out of lemma queries
+				for _, m := range strings.Fields(strings.TrimPrefix(s, ";@attach-proved")) {
+					p.Attach[m] = append(p.Attach[m], module)
+					p.Proved[module] = true
 				}
 				continue
 			}
@@ -354,12 +373,16 @@ func (p *Prelude) Select(used map[string]bool, lemmaMode bool) (before, after []
 	for len(work) > 0 {
 		m := work[len(work)-1]
 		work = work[:len(work)-1]
-		if !lemmaMode {
-			for _, d := range p.Attach[m] {
-				if !active[d] {
-					active[d] = true
-					work = append(work, d)
-				}
+		for _, d := range p.Attach[m] {
+			if lemmaMode && p.Proved[d] {
+				continue
+			}
+			if !lemmaMode && p.LemmaOnly[d] {
+				continue
+			}
+			if !active[d] {
+				active[d] = true
+				work = append(work, d)
 			}
 		}
 		for _, d := range p.ModDeps[m] {
